@@ -215,4 +215,17 @@ theorem pinned_panics_after_tail_edit :
     let resumed := (execute false toyH { afterFailure with tick := 0, faults := [] } edited).1
     (execute false toyH { resumed with tick := 0 } edited).2 = .panic := by decide
 
+/-- **truncated_file_refused**: a partially applied file that now holds fewer statements than were applied
+is refused (or the revision write fails, or the hash collides) — never resumed, never a crash. -/
+theorem truncated_file_refused {H : Text → String} {w : World} {m : MFile} {old : List Text} {k : Nat}
+    {r : Revision} (hp : PartiallyApplied H w m old k r) (hshort : m.stmts.length < k) :
+    (∃ i b, (execute true H w m).2 = .historyChanged i b) ∨ (execute true H w m).2 = .writeRev ∨
+    Collision H := by
+  apply changed_prefix_refused hp
+  intro he
+  have h1 : (m.stmts.take k).length = (old.take k).length := by rw [he]
+  have := hp.kle
+  simp only [List.length_take] at h1
+  omega
+
 end Props.C12
